@@ -461,7 +461,10 @@ pub fn c01_framebuffer_64() {
 fn vbe() {
     const N: usize = 8 + 784 + 8;
     let mut b = region::<N>();
-    // keep the walk short: the VBE tag is the first tag (any type word), rest symbolic
+    // the first tag is a VBE tag (type 7) of symbolic size >= 700, so that the walk stays short;
+    // everything else, including the rest of the region, is symbolic
+    put32(&mut b.0, 8, 7);
+    nd::assume(le32(&b.0, 12) >= 700);
     let bi = match load(&b) {
         Some(bi) => bi,
         None => return,
@@ -479,9 +482,9 @@ fn vbe() {
 
 // @harness props=C01,C15 tier=thorough panic=allow timeout=1800
 // @encodes BootInformation::vbe_info_tag VBEInfoTag::{mode,interface_*,control_info,mode_info} cast::<VBEInfoTag>
-// @bound fully symbolic 800-byte region (header + 784 + end tag)
+// @bound 800-byte region (header + 784 + end tag): first tag of type 7 with symbolic size >= 700, all other bytes symbolic
 #[cfg_attr(kani, kani::proof)]
-#[cfg_attr(kani, kani::unwind(102))]
+#[cfg_attr(kani, kani::unwind(16))]
 pub fn c01_vbe_800() {
     vbe();
 }
